@@ -21,7 +21,8 @@ Supported Rust: `let`, `if` / `else` / `else if` (statement and expression), `if
 `self.f = e`, `self.f.clear()`, `self.f.extend_from_slice(e)`, `self.<inner>.<m>(ctx, args…)`,
 `return;`, `assert!(e)`, `warn!(…)` (skipped), `+ - == != < <= > >= && || !`, `x.len()`, `x[i]`,
 `&x[a..b]` (all four forms), `e as usize`, `T::CONST`, `Self::CONST`, `T::new(e)`, `cfg!(fuzzing)`,
-`mpegts_crc::sum32(e)`, `Some(e)`, `None`, enum constructors of the struct's state enum.
+`mpegts_crc::sum32(e)`, `a.saturating_sub(b)`, `a.min(b)`, `a.max(b)`, `Some(e)`, `None`, enum constructors of
+the struct's state enum.
 Anything else raises ParseError for that struct: the recorded translation
 (tools/gen_defaults.json, key "psi") is then written for the WHOLE file, the header says so, and the
 chain is tied through the correspondence only.
@@ -163,6 +164,11 @@ class P:
         while True:
             if self.at(".", "len", "(", ")"):
                 self.i += 4; e = ("len", e); continue
+            if self.peek()[1] == "." and self.peek(1)[1] in ("saturating_sub", "min", "max") and self.peek(2)[1] == "(":
+                m = self.peek(1)[1]
+                self.i += 3
+                b = self.expr(); self.expect(")")
+                e = ("natop", m, e, b); continue
             if self.at(".", "version", "(", ")"):
                 self.i += 4; e = ("call", "tshVersion", [e]); continue
             if self.at(".", "payload", "(", ")"):
@@ -391,6 +397,14 @@ class Gen:
         if k == "not":
             p, a, t = self.ex(e[1], env)
             return p, "(!%s)" % a, "bool"
+        if k == "natop":
+            pa, a, ta = self.ex(e[2], env)
+            pb, b, tb = self.ex(e[3], env)
+            if ta != "nat" or tb != "nat":
+                raise ParseError("%s on %s, %s" % (e[1], ta, tb))
+            # usize::saturating_sub is truncated subtraction on Nat; min / max as usual
+            term = {"saturating_sub": "(%s - %s)", "min": "(min %s %s)", "max": "(max %s %s)"}[e[1]] % (a, b)
+            return pa + pb, term, "nat"
         if k == "len":
             p, a, t = self.ex(e[1], env)
             if t == "slice":
